@@ -226,9 +226,23 @@ def gen_dmm(rng: random.Random, physical: bool = False) -> dict:
     }
 
 
-def gen_register(rng: random.Random, n_min=1, n_max=5, dim3_p=0.2, int_ids_p=0.0) -> dict:
+def gen_register(rng: random.Random, n_min=1, n_max=5, dim3_p=0.2, int_ids_p=0.0, ring_p=0.0) -> dict:
     n = rng.randint(n_min, n_max)
     dim = 3 if rng.random() < dim3_p else 2
+    if ring_p and rng.random() < ring_p and n >= 3:
+        # atoms on a circle, coordinates straight from cos/sin: pairs of traps whose
+        # x (or y) agree to 1e-6 but not bit for bit, which is where any ordering
+        # of traps by rounded coordinates meets floating-point noise
+        import math
+
+        n = max(n, 4)
+        pool = ["q0", "q1", "q2", "q3", "q4", "a", "b", "zz", "k9"]
+        ids = rng.sample(pool, n)
+        rad = 1.15 * 5.0 / (2 * math.sin(math.pi / n))
+        th0 = _pick(rng, [0.0, math.pi / n, 0.3])
+        sgn = _pick(rng, [1, -1])
+        coords = [[rad * math.cos(th0 + sgn * 2 * math.pi * k / n), rad * math.sin(th0 + sgn * 2 * math.pi * k / n)] for k in range(n)]
+        return {"ids": ids, "coords": coords, "dim": 2}
     pool = ["q0", "q1", "q2", "q3", "q4", "a", "b", "zz", "k9"]
     ids = rng.sample(pool, n)
     if int_ids_p and rng.random() < int_ids_p:
@@ -317,7 +331,7 @@ def gen_device(
 
 
 def gen_world(rng: random.Random, **kw) -> dict:
-    reg_kw = {k: kw.pop(k) for k in ("n_min", "n_max", "dim3_p", "int_ids_p") if k in kw}
+    reg_kw = {k: kw.pop(k) for k in ("n_min", "n_max", "dim3_p", "int_ids_p", "ring_p") if k in kw}
     style_p = kw.pop("call_style_p", 0.0)
     dev = gen_device(rng, **kw)
     reg = gen_register(rng, **reg_kw)
